@@ -180,7 +180,14 @@ class Prop(object):
         clear_late = pgpy.PGPMessage.new(late, cleartext=True)
         clear_late |= key.sign(clear_late, hash=HashAlgorithm.SHA256, created=K.dt(K.T0 + 9))
         self._late_text = late
+        # (separators that are not line ends - VT, FF, FS/GS/RS, NEL, U+2028/9, a carriage return without line feed - each followed by a dash: no line
+        # begins there, so the armor must hand back exactly this text)
+        seps = 'page one\x0b- page two\nx\r- y\n\x0c-z\x1c-\x1d-\x1e-\x85-\u2028-\u2029-\n- real dash line\nend'
+        clear_seps = pgpy.PGPMessage.new(seps, cleartext=True)
+        clear_seps |= key.sign(clear_seps, hash=HashAlgorithm.SHA256, created=K.dt(K.T0 + 9))
+        self._texts = {'cleartext message': 'cleartext\n- dash line\nend', 'cleartext message, late non-ascii': late, 'cleartext message, separators': seps}
         return {
+            'cleartext message, separators': (clear_seps, 'SIGNATURE', pgpy.PGPMessage),
             'cleartext message, late non-ascii': (clear_late, 'SIGNATURE', pgpy.PGPMessage),
             'public key': (key.pubkey, 'PUBLIC KEY BLOCK', pgpy.PGPKey), 'private key': (key, 'PRIVATE KEY BLOCK', pgpy.PGPKey),
             'large public key': (big.pubkey, 'PUBLIC KEY BLOCK', pgpy.PGPKey), 'large private key': (big, 'PRIVATE KEY BLOCK', pgpy.PGPKey),
@@ -211,7 +218,7 @@ class Prop(object):
                         a = rarmor.dearmor(text)
                         if a['data'] != binary:
                             probs.append('signature block of the cleartext message does not decode to the binary signatures')
-                        if a['cleartext'] != ('cleartext\n- dash line\nend' if name == 'cleartext message' else self._late_text):
+                        if a['cleartext'] != self._texts[name]:
                             probs.append('cleartext read by the independent decoder: %r' % (a['cleartext'],))
                         if not text.startswith('-----BEGIN PGP SIGNED MESSAGE-----\n'):
                             probs.append('cleartext header line')
